@@ -342,3 +342,66 @@ def policy_obligation(prog, enums, structs, kind, span):
                 failed.append(dict(check="", description=name, location="dhcp/config.rs parse_policy", kind="violation",
                                    counterexample=dict(config_section="dhcp policy " + kind, start=ev(start), end=ev(end), outcome=outcome if outcome == "panic" else val.variant)))
     return failed, ex, len(paths), kinds
+
+
+# ---------------------------------------------------------------------------------------------------------------- prefix strings
+def prefix_string_obligation(prog, enums, structs, fname, family, plen):
+    """config::str_prefix / str_prefix4 / str_prefix6 on "<address>/<plen>": IPv4 addresses symbolic (all 2^32), IPv6 text concrete"""
+    fn = find1(prog, fname, 1, "config")
+    ex = mk_exec(prog, enums)
+    import ipaddress
+    v6texts = ["2001:db8::", "::ffff:192.0.2.0", "::"]
+
+    def run(e):
+        if family == 4:
+            a = z3.BitVec("addr", 32)
+            e.env["addr"] = a
+            s_ = Str(ip=a, plen=plen)
+        else:
+            k = e.choose([None] * len(v6texts))
+            e.env["v6"] = v6texts[k]
+            s_ = Str(text="%s/%d" % (v6texts[k], plen))
+        return e.call_fn(fn, [some(s_)])
+    paths = ex.explore(run)
+    failed, kinds = [], {}
+    limit = 32 if family == 4 else 128
+    for outcome, val, pc, env in paths:
+        claims = []
+        if outcome == "panic":
+            kinds["panic"] = kinds.get("panic", 0) + 1
+            claims.append(("parsing a prefix string returns a prefix or an error, it never panics: " + str(val), z3.BoolVal(False)))
+        else:
+            k = classify(val)
+            kinds[k] = kinds.get(k, 0) + 1
+            wrong_family = (fname == "str_prefix4" and family == 6) or (fname == "str_prefix6" and family == 4)
+            if k == "ok:Some":
+                pf = val.fields[0].fields[0]
+                if pf.variant in ("V4", "V6"):
+                    pf = pf.fields[0]
+                if not pf.names:
+                    pf.names = ["addr", "prefixlen"]
+                got_len = field(structs, pf, "prefixlen").t
+                claims.append(("an accepted prefix has a length its address family allows (IPv4 <= 32, IPv6 <= 128) and it is the written one",
+                               z3.And(z3.BoolVal(plen <= limit and not wrong_family), got_len == plen)))
+                if family == 4 and not wrong_family:
+                    claims.append(("an accepted IPv4 prefix carries the written address", field(structs, pf, "addr").fields[0].t == env["addr"]))
+            elif k == "err":
+                claims.append(("a well-formed prefix of a permitted length is accepted", z3.BoolVal(plen > limit or wrong_family)))
+            else:
+                claims.append(("a written prefix is not silently dropped", z3.BoolVal(False)))
+        for name, f in claims:
+            m = check(ex, pc, f, name)
+            if m is not None:
+                failed.append(dict(check="", description=name, location="config.rs " + fname, kind="violation",
+                                   counterexample=dict(config_section="prefix string", parser=fname, text=("%s/%d" % (env.get("v6"), plen)) if family == 6 else "<a.b.c.d>/%d" % plen,
+                                                       addr=(m.eval(env["addr"], model_completion=True).as_long() if family == 4 else None), outcome=outcome if outcome == "panic" else classify(val))))
+    return failed, ex, len(paths), kinds
+
+
+def prefix_string_cases(tier):
+    out = []
+    for fname, fam, lens in (("str_prefix4", 4, (0, 24, 32, 33, 255)), ("str_prefix", 4, (0, 32, 33, 200)), ("str_prefix", 6, (0, 64, 128, 129, 255)), ("str_prefix6", 6, (0, 96, 128, 129, 200)),
+                             ("str_prefix6", 4, (24,)), ("str_prefix4", 6, (64,))):
+        for n in lens:
+            out.append((fname, fam, n))
+    return out
